@@ -114,8 +114,10 @@ func endpoints() map[string]*gep {
 
 // ME is one MultiEndpoint of an option set.
 type ME struct {
-	Name int   `json:"name"` // index into MENames
-	Eps  []int `json:"eps"`  // indices into EPNames (distinct)
+	Name int   `json:"name"`                 // index into MENames
+	Eps  []int `json:"eps"`                  // indices into EPNames (distinct)
+	RMs  int   `json:"recoveryMs,omitempty"` // recovery timeout (applies when the MultiEndpoint is created)
+	DMs  int   `json:"delayMs,omitempty"`    // switching delay (applies when the MultiEndpoint is created)
 }
 
 // Options is a generated option set.
@@ -172,6 +174,7 @@ type world struct {
 	def         string
 	up          map[string]bool
 	m0          int
+	delayed     map[string]bool // MultiEndpoints created with a recovery timeout or switching delay follow with a delay
 }
 
 type failure struct{ f *Fail }
@@ -313,6 +316,26 @@ func (w *world) upList() []string {
 }
 
 // settle polls until the routing of every context equals the model (bounded at 10 s).
+// noteTimers records which MultiEndpoints exist with timers after an accepted option set.
+func (w *world) noteTimers(o *grpcgcp.GCPMultiEndpointOptions) {
+	if w.delayed == nil {
+		w.delayed = map[string]bool{}
+	}
+	for name := range w.delayed {
+		if _, ok := o.MultiEndpoints[name]; !ok {
+			delete(w.delayed, name)
+		}
+	}
+	for name, meo := range o.MultiEndpoints {
+		if _, known := w.delayed[name]; !known {
+			w.delayed[name] = meo.RecoveryTimeout > 0 || meo.SwitchingDelay > 0
+			if w.delayed[name] {
+				w.labels["multiendpoint-with-timers"]++
+			}
+		}
+	}
+}
+
 func (w *world) settle(what, prop string) {
 	deadline := time.Now().Add(10 * time.Second)
 	stream := false
@@ -415,7 +438,7 @@ func (o *Options) build(w *world) (*grpcgcp.GCPMultiEndpointOptions, map[string]
 		if len(l) == 0 {
 			l = []string{EPNames[0]}
 		}
-		mes[name] = &multiendpoint.MultiEndpointOptions{Endpoints: append([]string{}, l...)}
+		mes[name] = &multiendpoint.MultiEndpointOptions{Endpoints: append([]string{}, l...), RecoveryTimeout: time.Duration(me.RMs) * time.Millisecond, SwitchingDelay: time.Duration(me.DMs) * time.Millisecond}
 		model[name] = l
 	}
 	if len(mes) == 0 {
@@ -586,6 +609,7 @@ func Run(c *Case, props map[string]bool) (res Result) {
 	}
 	w.gme, w.client = gme, hw.NewGreeterClient(gme)
 	w.mes, w.def = model, def
+	w.noteTimers(o)
 	w.settle("create", "C15")
 	w.checkPools("create")
 	if len(model) >= 2 {
@@ -619,6 +643,7 @@ func Run(c *Case, props map[string]bool) (res Result) {
 				w.fail("C15", "update-rejected", "valid update rejected: %v", err)
 			}
 			w.mes, w.def = model, def
+			w.noteTimers(o)
 			// kept pools were not re-dialed
 			for e := range keptOpen {
 				if len(w.dialed[e]) != before[e] {
@@ -634,7 +659,7 @@ func Run(c *Case, props map[string]bool) (res Result) {
 			// MultiEndpoints whose top up endpoint's pool was kept route correctly at once
 			for n, l := range model {
 				t := topUp(l, w.up)
-				if t == "" || !keptOpen[t] || !readyBefore[t] || w.dialed[t][len(w.dialed[t])-1].GetState() != connectivity.Ready {
+				if t == "" || w.delayed[n] || !keptOpen[t] || !readyBefore[t] || w.dialed[t][len(w.dialed[t])-1].GetState() != connectivity.Ready {
 					continue
 				}
 				got, p := w.route(n, true, false)
